@@ -226,11 +226,17 @@ class _Shim:
         return _np.all(a, **kw)
 
     def where(self, cond, *a):
+        if has_sym(cond) and not a:
+            c = _obj(cond)
+            if c.ndim != 1:
+                raise Escape('np.where on a multi-dimensional symbolic condition')
+            return (_np.array([i for i in range(len(c)) if c[i]], dtype=int),)      # forks per element
         if has_sym(cond) or any(has_sym(x) for x in a):
-            raise Escape('np.where on symbolic values')
+            raise Escape('np.where(cond, x, y) on symbolic values')
         return _np.where(cond, *a)
 
-    def extract(self, cond, arr):
+    def extract(self, condition, arr):
+        cond = condition
         if has_sym(cond) or has_sym(arr):
             c = _obj(cond).ravel()
             v = _obj(arr).ravel()
